@@ -164,6 +164,27 @@ def build():
         raise GenError("nsec3_hash: iteration digest is %s" % m.group(2))
     defs.append(("hash_iter_from", "N", N(int(m.group(1)))))
     defs.append(("hash_salt_after_data", "bool", B(True)))
+    # ---------------------------------------------------------- TTL / class of the generated records
+    ct = fn_body(rs_, "check_ttls")
+    m = one(r"if\s+first\.rtype\(\)\s*==\s*Rtype::(\w+)\s*\{\s*return\s+Ok\(\(\)\)\s*;", ct, "check_ttls exemption")
+    defs.append(("rrsig_ttl_exempt", "N", N(rt(m.group(1), "check_ttls"))))
+    one(r"let\s+first_ttl\s*=\s*first\.ttl\(\)\s*;\s*if\s+slice\.iter\(\)\.any\(\s*\|r\|\s*r\.ttl\(\)\s*!=\s*first_ttl\s*\)\s*\{\s*return\s+Err\(SigningError::MultipleTtlValues\)", ct, "check_ttls comparison")
+    if len(re.findall(r"Rrset::check_ttls\(&slice\)\.expect\(", rs_)) != 3:
+        raise GenError("Rrset::new*: check_ttls is no longer expect()ed in all three constructors")
+    one(r"nsec_ttl\s*=\s*Some\(\s*min\(\s*soa_data\.minimum\(\)\s*,\s*soa_rr\.ttl\(\)\s*\)\s*\)\s*;\s*zone_class\s*=\s*Some\(\s*rrset\.class\(\)\s*\)\s*;", g, "generate_nsecs ttl/class")
+    defs.append(("ttl_is_min", "bool", B(True)))
+    if len(re.findall(r"zone_class\.unwrap\(\)\s*,\s*nsec_ttl\.unwrap\(\)", g)) != 2:
+        raise GenError("generate_nsecs: Record::new(.., zone_class.unwrap(), nsec_ttl.unwrap(), ..) sites changed")
+    one(r"nsec3_ttl\s*=\s*Some\(\s*min\(\s*soa_data\.minimum\(\)\s*,\s*soa_rr\.ttl\(\)\s*\)\s*\)\s*;", g3n, "generate_nsec3s ttl")
+    one(r"nsec3param_ttl\s*=\s*match\s+config\.nsec3param_ttl_mode\s*\{\s*Nsec3ParamTtlMode::Fixed\(ttl\)\s*=>\s*Some\(ttl\)\s*,\s*Nsec3ParamTtlMode::Soa\s*=>\s*Some\(\s*soa_rr\.ttl\(\)\s*\)\s*,\s*Nsec3ParamTtlMode::SoaMinimum\s*=>\s*Some\(\s*soa_data\.minimum\(\)\s*\)\s*,?\s*\}", g3n, "nsec3param ttl modes")
+    mk = fn_body(n3, "mk_nsec3")
+    m = one(r"Ok\(Record::new\(\s*owner_name\s*,\s*Class::(\w+)\s*,\s*ttl\s*,\s*nsec3\s*\)\)", mk, "mk_nsec3 class")
+    m2 = one(r"Class::(\w+)\s*,\s*nsec3param_ttl\s*,\s*config\.params\.clone\(\)", g3n, "nsec3param class")
+    cl = strip_comments(read("src/base/iana/class.rs"))
+    mc = one(r"\(\s*%s\s*=>\s*(\d+)\s*," % re.escape(m.group(1)), cl, "Class value")
+    if m.group(1) != m2.group(1):
+        raise GenError("NSEC3 and NSEC3PARAM classes differ")
+    defs.append(("nsec3_class", "N", N(int(mc.group(1)))))
     # ---------------------------------------------------------- record equality used by SortedRecords' dedup
     rd = strip_comments(read("src/base/rdata.rs"))
     ib = impl_body(rd, r"impl<Octs,\s*Other>\s+PartialEq<UnknownRecordData<Other>>\s+for\s+UnknownRecordData<Octs>\s+where[^{]*\{")
